@@ -168,7 +168,7 @@ def gen_case(rng, tier):
     docs = [base] + ([doc2] if doc2['items'] else [])
     style = rng.choice(['flow', 'block'])
     return {'texts': [emit.emit(d, style) for d in docs], 'refs': refs, 'cycle': container_cycle, 'n_nodes': sum(1 for d in docs for _ in emit.walk(d)),
-            'two_sources': rng.random() < 0.5}
+            'two_sources': rng.random() < 0.5, 'route': rng.choice(['config', 'ctx'])}
 
 
 def _at(doc, p):
@@ -254,7 +254,7 @@ def run(case):
     verif_targets.reset()
     try:
         if case['two_sources'] or len(texts) == 1:
-            got = lib.outcome(lambda: lib.build(texts))
+            got = lib.outcome(lambda: lib.build_via(texts, case.get('route', 'config')))
         else:
             got = lib.outcome(lambda: lib.build([''.join(t if t.startswith('--- ') else '---\n' + t for t in texts)]))
     except monitors.StepBudgetExceeded as e:
